@@ -211,6 +211,8 @@ def queries(tier):
         for vl in ((0, 1, 2) if th else (1,)):
             if (len(ops) > 2 or any(isinstance(x, tuple) or x >= 2 for x in al)) and vl > 1:
                 continue
+            if th and vl == 0 and len(ops) > 1:
+                continue
             qs.append(Query('typed %s alg=%s data=⟦%d⟧' % ('+'.join(ops), al, vl), h_seq, {'ops': ops, 'alen': al, 'vlen': vl},
                             bound='Checksum::default() then %s; algorithm names of %s free bytes (no ","), values of %d free bytes; every HashMap iteration order' % (ops, al, vl)))
     def addp(T, parts):
